@@ -177,9 +177,10 @@ class TorchBackend:
                         converted_args.append(torch.tensor(arg, device=self.device))
                     except (ValueError, TypeError):
                         converted_args.append(arg)
-                elif needs_tensor and isinstance(arg, (int, float)):
-                    # Convert Python scalars to tensors for functions that require it
-                    dtype = torch.float32 if isinstance(arg, float) else torch.int64
+                elif needs_tensor and isinstance(arg, (int, float, numpy.integer, numpy.floating)):
+                    # Convert Python and numpy scalars to tensors for functions that require it
+                    # (numpy.int64 is not a Python int: sqrt(x@0) with x an integer array)
+                    dtype = torch.float32 if isinstance(arg, (float, numpy.floating)) else torch.int64
                     converted_args.append(torch.tensor(arg, dtype=dtype, device=self.device))
                 else:
                     converted_args.append(arg)
